@@ -132,7 +132,7 @@ func dfCoq(n *Node) string {
 	}
 	switch n.T {
 	case "stack":
-		if n.A == "" && n.Sym == "" && n.Delim == "" && len(n.Enc) == 0 && !n.Fifo && n.Cap == 0 {
+		if n.A == "" && n.Sym == "" && n.Delim == "" && len(n.Enc) == 0 && !n.Fifo && n.Cap == 0 && !n.PreErr {
 			zs := make([]string, 0, len(n.Els))
 			ok := true
 			for _, e := range n.Els {
@@ -490,6 +490,29 @@ func dfRandArgs(r *Rng) []int {
 	return []int{1 + r.Intn(12)}
 }
 
+// dfPreErr marks Stack nodes that hold at least one nil element (so Defrag has
+// work to do there) and are not read-only as carrying a stale error.
+func dfPreErr(n *Node, r *Rng, pct int) {
+	if n == nil {
+		return
+	}
+	if n.T == "stack" {
+		hasNil := false
+		for _, e := range n.Els {
+			if e == nil || e.T == "nil" {
+				hasNil = true
+			}
+			dfPreErr(e, r, pct)
+		}
+		if hasNil && n.Opt&128 == 0 && r.Pct(pct) {
+			n.PreErr = true
+		}
+	}
+	if n.T == "cond" {
+		dfPreErr(n.Ex, r, pct)
+	}
+}
+
 func genDefrag(ctx *Ctx, emit func(any, string)) {
 	r := ctx.Rng.Fork()
 	mk := func(args []int, root *Node) DefragInput { return DefragInput{Args: args, Root: root} }
@@ -540,6 +563,16 @@ func genDefrag(ctx *Ctx, emit func(any, string)) {
 					}
 					emit(mk(lim, dfFlat(p, kind, opt)), "exhaustive")
 				}
+			}
+		}
+	}
+	// -- a stale error stored before Defrag: every pattern up to length 6
+	for n := 1; n <= 6; n++ {
+		for bits := 0; bits < 1<<n; bits++ {
+			root := dfFlat(dfBits(n, bits), "BASIC", 0)
+			dfPreErr(root, r, 100)
+			if root.PreErr {
+				emit(mk(nil, root), "exhaustive")
 			}
 		}
 	}
@@ -603,6 +636,9 @@ func genDefrag(ctx *Ctx, emit func(any, string)) {
 			root.Els = []*Node{mid, {T: "nil"}, dfLeaf(902)}
 		default:
 			root.Els = []*Node{{T: "nil"}, dfLeaf(903), dfCondOf(inner, a)}
+		}
+		if r.Pct(30) {
+			dfPreErr(root, r, 60)
 		}
 		emit(mk(dfRandArgs(r), root), "random")
 	}
